@@ -51,6 +51,13 @@ def cases(draw):
     elif ending in ('layer-setUp-raises', 'layer-tearDown-raises'):
         L = spec['layers'][draw(st.integers(0, len(spec['layers']) - 1))]
         L.setdefault('faults', {})[ending.split('-')[1]] = 'ValueError'
+    if draw(st.integers(0, 4)) == 0:
+        # a suite-like object that is not a TestSuite keeps unittest's class fixtures alive: results are then reported
+        # outside the runner's own startTest/stopTest bracket (here: a class fixture that skips the whole class)
+        nodes = [n for m in spec['modules'] for n in _case_nodes(m['tree'])]
+        node = nodes[draw(st.integers(0, len(nodes) - 1))]
+        node['wrap'] = 'suitelike'
+        node['class_skip'] = draw(st.booleans())
     if draw(st.booleans()):
         gen.add_outputs(draw, spec, prob=40, bad_bytes=False)
     # tests that touch the same interpreter state themselves
@@ -96,6 +103,13 @@ def cases(draw):
         # (a test that clears the trace function itself would clear a pre-existing one too: not the runner's doing)
         init['trace'] = False
     return {'spec': spec, 'opts': o, 'init': init, 'ending': ending}
+
+
+def _case_nodes(node):
+    if node['t'] == 'c':
+        yield node
+    for ch in node.get('ch') or ():
+        yield from _case_nodes(ch)
 
 
 def _noop_trace(frame, event, arg):
@@ -228,6 +242,8 @@ class InProc(Part):
                 labels.append('opt:' + k)
         garbage = any(a[0] == 'garbage' for _, t in gen.iter_tests(case['spec']) for acts in (t.get('acts') or {}).values()
                       for a in acts)
+        if any(n.get('wrap') for m in case['spec']['modules'] for n in _case_nodes(m['tree'])):
+            labels.append('suite-like-test-object')
         if garbage and o.get('gc_after_test') and o.get('verbose', 0) >= 4:
             labels.append('cycle-report-of-left-garbage')
         return Outcome(viol, labels, (nchg >= 2 and abnormal) or 'cycle-report-of-left-garbage' in labels)
